@@ -22,9 +22,11 @@ from autograd.core import vspace
 from autograd.tracer import isbox
 import autograd.builtins as abuiltins
 
-from rule_build import build, Skip
+from rule_build import build, Skip, raw_value
 
-warnings.simplefilter("ignore")
+# "--warnings-error": every warning is an exception (C19: "... or from a warning promoted to an error"); whether a call warns must not
+# depend on what ran before it in the same process
+warnings.simplefilter("error" if "--warnings-error" in sys.argv[3:] else "ignore")
 onp.seterr(all="ignore")
 
 Q = float(2 ** 20)
@@ -377,6 +379,16 @@ def observe(cfg):
                              and onp.allclose(onp.asarray(val2), y0, rtol=1e-12, atol=0, equal_nan=True))
     except Exception as ex:     # noqa
         pr["nest_raised"] = type(ex).__name__
+    # the value autograd.numpy computes on PLAIN arguments against numpy itself (same call template, `np` bound to plain numpy)
+    pr["raw_eq"], pr["raw_checked"] = True, False
+    try:
+        yr = raw_value(cfg)
+        pr["raw_checked"] = True
+        pr["raw_eq"] = bool(onp.shape(yr) == onp.shape(y0) and onp.allclose(yr, y0, rtol=1e-12, atol=0, equal_nan=True))
+        if not pr["raw_eq"]:
+            pr["raw_shapes"] = [list(onp.shape(yr)), list(onp.shape(y0))]
+    except Skip as sk:
+        pr["raw_skip"] = str(sk)[:60]
     obs["primal"] = pr
     if cfg.get("second") and not kink and cfg["kind"] == "rr" and not single:
         try:
